@@ -18,7 +18,10 @@ var symbols = []string{"Xm", "Xo", "Em", "Eo", "Rm", "U", "U48"}
 
 var symParty = map[string]string{"Xm": "X1", "Xo": "X2", "Em": "E1", "Eo": "E2", "Rm": "R1"}
 
-func isMine(s string) bool { return len(s) == 2 && s[1] == 'm' }
+func isMine(s string) bool {
+	_, v := valueOpeners[s]
+	return v || (len(s) == 2 && s[1] == 'm')
+}
 
 func hasMine(mix []string) bool {
 	for _, s := range mix {
@@ -109,6 +112,9 @@ func stanzaFor(sym string, fileKey []byte, label string) refage.Stanza {
 	if isLong(sym) {
 		return longStanza(sym)
 	}
+	if _, ok := valueOpeners[sym]; ok {
+		return valueStanza(sym, fileKey, label)
+	}
 	return wrapFor(keys.P(symParty[sym]), fileKey, label)
 }
 
@@ -171,7 +177,15 @@ func (o *original) finish() {
 	for _, s := range o.mix {
 		if isMine(s) && !seen[s] {
 			seen[s] = true
-			o.openers = append(o.openers, keys.P(symParty[s]))
+			for _, p := range partiesOf(s) {
+				dup := false
+				for _, q := range o.openers {
+					dup = dup || q.Name == p.Name
+				}
+				if !dup {
+					o.openers = append(o.openers, p)
+				}
+			}
 		}
 	}
 	lbl := fmt.Sprintf("sib-%s", o.name)
